@@ -105,6 +105,14 @@ def sleepers_scenario(sh: Shard, seed, idx, regime):
                     await asyncio.sleep(base + ts - w.now)
                 active = r.random() < 0.5
                 t = w.now
+                if r.random() < 0.35:
+                    # somebody tuned one or two settings of the live table through the public
+                    # GeckoConfig (an application that wants faster pings) - to the very value the
+                    # table about to be selected states: the switch still installs ALL of that table
+                    tgt = C._GeckoActiveConfig if active else C._GeckoIdleConfig
+                    for m in r.sample(table_members(), r.choice([1, 1, 2])) + (["PING_FREQUENCY_IN_SECONDS"] if r.random() < 0.5 else []):
+                        setattr(C.GeckoConfig, m, getattr(tgt, m))
+                    sh.count("switches_with_settings_already_at_the_target_value")
                 try:
                     C.set_config_mode(active)
                 except (AssertionError, AttributeError):
